@@ -15,7 +15,9 @@ Record case := mkcase {
   c_fifo : nat;
   c_off : nat;                       (* leader r = (c_off + r) mod c_nodes *)
   c_expect : list nat;               (* processes that must decide in this execution (timely schedules), else [] *)
-  c_cluster : bool;                  (* every process of the trace is a real honest qbft.Run fed only with broadcasts of the others *)
+  c_cluster : bool;                  (* every process of the trace is a real honest qbft.Run; what it receives was broadcast by
+                                        such processes or assembled by the members c_byz from those broadcasts and their own parts *)
+  c_byz : list nat;                  (* members played by the scripted Byzantine adversary (cluster-byz), else [] *)
   c_trace : list (nat * label)
 }.
 
@@ -109,9 +111,10 @@ Definition mon3_bad (c : case) : list (nat * (nat * nat)) :=
                      | None => []
                      end) (pids (c_trace c)).
 
-(* Network level: an honest cluster execution must be an execution of Qbft/Net.v (all members honest): every
-   delivered message consists of parts that were broadcast before.  (case, index of the first refused global step) *)
-Definition case_cfg (c : case) : cfg := mkcfg (c_nodes c) (c_fifo c) (lead_rr (c_off c) (c_nodes c)) (fun _ => true).
+(* Network level: a cluster execution must be an execution of Qbft/Net.v (members c_byz Byzantine, the others honest):
+   every part of every delivered message was broadcast before by an honest member or has a Byzantine source.  (case, index of the first refused global step) *)
+Definition case_cfg (c : case) : cfg :=
+  mkcfg (c_nodes c) (c_fifo c) (lead_rr (c_off c) (c_nodes c)) (fun i => negb (memn i (c_byz c))).
 Definition net_bad (c : case) : list (nat * nat) :=
   if c_cluster c then
     match nrun_first_reject (case_cfg c) net_init (c_trace c) 0 with Some k => [(c_id c, k)] | None => [] end
